@@ -452,7 +452,15 @@ impl Filter for RoundFilter {
 
         let input = input
             .as_scalar()
-            .and_then(|s| s.to_float())
+            .ok_or_else(|| invalid_input("Number expected"))?;
+        // rounding a whole number to whole numbers leaves it alone; `f64` cannot represent every `i64`
+        if n <= 0 {
+            if let Some(i) = input.to_integer() {
+                return Ok(Value::scalar(i));
+            }
+        }
+        let input = input
+            .to_float()
             .ok_or_else(|| invalid_input("Number expected"))?;
 
         match n.cmp(&0) {
@@ -483,9 +491,15 @@ struct CeilFilter;
 
 impl Filter for CeilFilter {
     fn evaluate(&self, input: &dyn ValueView, _runtime: &dyn Runtime) -> Result<Value> {
-        let n = input
+        let input = input
             .as_scalar()
-            .and_then(|s| s.to_float())
+            .ok_or_else(|| invalid_input("Number expected"))?;
+        // a whole number is its own ceiling; `f64` cannot represent every `i64`
+        if let Some(n) = input.to_integer() {
+            return Ok(Value::scalar(n));
+        }
+        let n = input
+            .to_float()
             .ok_or_else(|| invalid_input("Number expected"))?;
         Ok(Value::scalar(n.ceil() as i64))
     }
@@ -505,9 +519,15 @@ struct FloorFilter;
 
 impl Filter for FloorFilter {
     fn evaluate(&self, input: &dyn ValueView, _runtime: &dyn Runtime) -> Result<Value> {
-        let n = input
+        let input = input
             .as_scalar()
-            .and_then(|s| s.to_float())
+            .ok_or_else(|| invalid_input("Number expected"))?;
+        // a whole number is its own floor; `f64` cannot represent every `i64`
+        if let Some(n) = input.to_integer() {
+            return Ok(Value::scalar(n));
+        }
+        let n = input
+            .to_float()
             .ok_or_else(|| invalid_input("Number expected"))?;
         Ok(Value::scalar(n.floor() as i64))
     }
